@@ -141,7 +141,7 @@ func c19Worker(c *core.Collector, x *Ctx) {
 	type sess = c19Sess
 	var all []sess
 	var mu sync.Mutex
-	core.ParallelFor(n, 8, func(i int) {
+	core.ParallelFor(n, 16, func(i int) {
 		g := gen.G{Rand: core.NewRand(c.Seed, "c19", uint64(x.Batch*100000+i))}
 		bcd := make([]byte, 6)
 		for k := 2; k < 6; k++ {
@@ -158,13 +158,21 @@ func c19Worker(c *core.Collector, x *Ctx) {
 		}
 		var files []att.File
 		s := sess{phone: phone}
+		// a third of the sessions are ordinary uploads (plain unique names, every file sent): they are stored, so whatever goes
+		// wrong with WHERE things are stored while many terminals upload at once shows on them
+		plain := sweep < 0 && g.Chance(1, 3)
 		for k := 0; k < nf; k++ {
 			var name []byte
 			pick := g.Intn(8)
 			if sweep >= 0 {
 				pick = 100
 			}
+			if plain {
+				pick = 200
+			}
 			switch pick {
+			case 200:
+				name = []byte(fmt.Sprintf("f%d_%d_%d.bin", x.Batch, i, k))
 			case 100:
 				name = []byte(c19Names[(sweep+k)%len(c19Names)])
 				c.Count("names_from_the_list_swept", 1)
@@ -223,7 +231,7 @@ func c19Worker(c *core.Collector, x *Ctx) {
 			aid = []byte(core.Pick(g.Rand, []string{"../../alarm", "../x", "/etc/x", "..", "a/b/../../.."}))
 		}
 		ctrl(0x1210, att.Body1210(consts.ActiveSafetyJS, tid, aid, uf))
-		if g.Chance(2, 3) {
+		if g.Chance(2, 3) || plain {
 			for _, f := range uf {
 				if len(f.Name) == 0 || len(f.Name) > 50 || f.Name[0] == 0 || f.Name[len(f.Name)-1] == 0 {
 					continue // cannot be carried by the 50-byte chunk header: announced only
@@ -234,7 +242,11 @@ func c19Worker(c *core.Collector, x *Ctx) {
 			}
 		}
 		var started atomic.Int64
-		res := att.RunTCP(addr, writes, &started, 0)
+		want := 0
+		if plain {
+			want = int(serial) - 1 // an ordinary terminal waits for the answer to its last control frame before it hangs up
+		}
+		res := att.RunTCP(addr, writes, &started, want)
 		if res.TimedOut {
 			c.Inconclusive()
 		}
@@ -336,7 +348,7 @@ func c19Worker(c *core.Collector, x *Ctx) {
 	}
 	c.Count("paths_created_or_modified", int64(created))
 	c.Count("stored_payloads_attributed_to_their_uploader", int64(inOwn))
-	c.Floor("stored_payloads_attributed_to_their_uploader", 10)
+	c.Floor("stored_payloads_attributed_to_their_uploader", 100)
 	c.Floor("sessions", 100)
 	c.Floor("paths_created_or_modified", 10)
 }
